@@ -1807,6 +1807,51 @@ fn normalize_index(i: i32, len: usize) -> Option<usize> {
     }
 }
 
+#[cfg(pest_parser_pest_verif)]
+impl<R: RuleType> ParserState<'_, R> {
+    /// Verification hook (read-only): canonical dump of the whole parser state.
+    pub fn verif_dump(&self) -> String {
+        use core::fmt::Write;
+        let mut o = String::new();
+        let _ = write!(o, "pos={};q=", self.position.pos());
+        for t in self.queue.iter() {
+            match t {
+                QueueableToken::Start { end_token_index, input_pos } => {
+                    let _ = write!(o, "S:{}:{},", end_token_index, input_pos);
+                }
+                QueueableToken::End { start_token_index, rule, tag, input_pos } => {
+                    let _ = write!(o, "E:{}:{:?}:{}:{},", start_token_index, rule, tag.unwrap_or("-"), input_pos);
+                }
+            }
+        }
+        let _ = write!(o, ";la={:?};at={:?};pa={:?};na={:?};ap={};st=", self.lookahead, self.atomicity,
+            self.pos_attempts, self.neg_attempts, self.attempt_pos);
+        for e in self.stack[0..self.stack.len()].iter() {
+            for b in e.as_borrowed_or_rc().as_str().bytes() {
+                let _ = write!(o, "{:02x}", b);
+            }
+            o.push(',');
+        }
+        let _ = write!(o, ";cl={:?};en={};cs=", self.call_tracker.current_call_limit, self.parse_attempts.enabled);
+        for c in self.parse_attempts.call_stacks.iter() {
+            let _ = write!(o, "{:?}/{:?},", c.deepest, c.parent);
+        }
+        for (name, toks) in [("ex", &self.parse_attempts.expected_tokens), ("un", &self.parse_attempts.unexpected_tokens)] {
+            let _ = write!(o, ";{}=", name);
+            for t in toks.iter() {
+                match t {
+                    ParsingToken::Sensitive { token } => { let _ = write!(o, "S:{:?},", token.as_bytes()); }
+                    ParsingToken::Insensitive { token } => { let _ = write!(o, "I:{:?},", token.as_bytes()); }
+                    ParsingToken::Range { start, end } => { let _ = write!(o, "R:{}:{},", *start as u32, *end as u32); }
+                    ParsingToken::BuiltInRule => o.push_str("B,"),
+                }
+            }
+        }
+        let _ = write!(o, ";mp={}", self.parse_attempts.max_position);
+        o
+    }
+}
+
 #[cfg(test)]
 mod test {
     use super::*;
